@@ -148,6 +148,9 @@ def gen_c09(seed, policy=None):
     beh = {"kind": "random", "p_event": rng.choice([0.5, 0.8, 1.0]), "p_future": 0.0, "ev_next": [None, None, 1]}
     if rng.random() < 0.2:
         scn = S.rename_sids(scn)  # the error must name the simulator whatever characters its id contains
+    if rng.random() < 0.3:
+        # the bound is assigned (world.max_loop_iterations = n) after the simulators were started; the constructor got another value
+        scn["maxloop_late"] = rng.choice([100, 0, scn["maxloop"] + 2, max(0, scn["maxloop"] - 1), 1])
     if rng.random() < 0.25:
         # the loops happen at LARGE simulation times (every simulator's first step announces time + jump), and replies may
         # carry the optional output time equal to the step time
